@@ -21,7 +21,7 @@ Ev == Trace[l]
 Verdict(v) == /\ skip' = (v # "ok" /\ nbad >= 40 * nbeh) /\ nbad' = IF v # "ok" THEN nbad + 1 ELSE nbad
               /\ (v # "ok" => PrintT(<<"TRACE-BAD", l, nbeh, v>>))
 
-TNew == /\ Ev.ev = "New" /\ s' = SM!InitSig(Ev.expect) /\ nbeh' = nbeh + 1 /\ skip' = FALSE /\ UNCHANGED nbad
+TNew == /\ Ev.ev = "New" /\ s' = [SM!InitSig(Ev.expect) EXCEPT !.pipe = (Ev.pipelined = 1)] /\ nbeh' = nbeh + 1 /\ skip' = FALSE /\ UNCHANGED nbad
 TSent == /\ Ev.ev = "sent" /\ s' = SM!OnSent(s, Ev.c, Ev.m) /\ Verdict("ok") /\ UNCHANGED nbeh
 TRecv == /\ Ev.ev = "recv"
          /\ LET r == SM!OnRecv(s, Ev.c, Ev.m) IN s' = r.s /\ Verdict(r.v)
@@ -42,13 +42,14 @@ TEnd == /\ Ev.ev = "End" /\ Verdict(SM!AtEnd(s)) /\ UNCHANGED <<s, nbeh>>
 TSettled == /\ Ev.ev = "settled"
             /\ LET r == SM!OnSettled(s) IN s' = r.s /\ Verdict(r.v)
             /\ UNCHANGED nbeh
+TOpen == /\ Ev.ev = "wsopen" /\ s' = SM!OnOpen(s, Ev.c) /\ Verdict("ok") /\ UNCHANGED nbeh
 TSentRaw == /\ Ev.ev = "sentraw" /\ s' = SM!OnSentRaw(s, Ev.c) /\ Verdict("ok") /\ UNCHANGED nbeh
 TOther == /\ Ev.ev \in {"restarted", "files", "wsfail", "puberr"}
           /\ s' = s /\ Verdict("ok") /\ UNCHANGED nbeh
 TSkip == skip /\ Ev.ev # "New" /\ UNCHANGED <<s, nbeh, nbad, skip>>
 
 Step == /\ l <= Len(Trace)
-        /\ (TNew \/ TSkip \/ (~skip /\ (TSent \/ TRecv \/ TClosed \/ TGone \/ TDead \/ THttp \/ TEnd \/ TSettled \/ TSentRaw \/ TOther)))
+        /\ (TNew \/ TSkip \/ (~skip /\ (TSent \/ TRecv \/ TClosed \/ TGone \/ TDead \/ THttp \/ TEnd \/ TSettled \/ TSentRaw \/ TOpen \/ TOther)))
         /\ l' = l + 1 /\ UNCHANGED done
 Finish == /\ l = Len(Trace) + 1 /\ ~done /\ done' = TRUE
           /\ PrintT(<<"TRACE-DONE", l - 1, nbeh, 0, nbad>>)
